@@ -5,7 +5,7 @@ import sys, os, json, shutil, re
 prop, k, needs = sys.argv[1], sys.argv[2], sys.argv[3]
 src = '/tmp/out-%s/%s' % (prop, k)
 rnd = ''
-if prop.endswith('b'):          # second independent round: /tmp/out-C02b/m1 -> seeded/C02-r4m1
+if prop[-1] in 'bc':          # second independent round: /tmp/out-C02b/m1 -> seeded/C02-r4m1
     rnd, prop_dir, prop = os.environ.get('ROUND', 'r4'), prop, prop[:-1]
     k_id = rnd + k
 else:
